@@ -706,9 +706,26 @@ def _name_root(facts, fn, defs, o, cache, depth=0):
             proj = [e for e in q['p'] if 'deref' not in e and e != {'deref': True}]
             proj = [e for e in proj if not (isinstance(e, dict) and list(e.keys()) == ['deref'])]
             if proj:
-                # payload of `?`: (x as Continue).0 / (x as Ok).0 where x is the result of an identity function
                 src = defs.get(q['l'])
+                for _hop in range(6):  # the struct value may have been moved a few times (`g = move tmp`)
+                    if src is not None and src[0] == 'stmt' and src[1]['k'] == 'use' and op_place(src[1]['a']) is not None and \
+                            not op_place(src[1]['a'])['p']:
+                        src = defs.get(op_place(src[1]['a'])['l'])
+                    else:
+                        break
                 names = [e.get('n') for e in proj if 'f' in e]
+                # a field of a struct value built in this function (`g = Geometry { n: x, .. }; .. g.n`): what was put there
+                if src is not None and src[0] == 'stmt' and src[1]['k'] == 'agg' and src[1].get('ak') == 'adt' and \
+                        len(names) == 1 and len(proj) == 1 and names[0] in (src[1].get('fields') or []):
+                    o2 = src[1]['ops'][src[1]['fields'].index(names[0])]
+                    q2 = op_place(o2)
+                    if q2 is None:
+                        return ('const', l) if op_const(o2) is not None else ('local', l)
+                    if q2['p']:
+                        return ('local', l)
+                    l = q2['l']
+                    continue
+                # payload of `?`: (x as Continue).0 / (x as Ok).0 where x is the result of an identity function
                 if src is not None and src[0] == 'call' and names == ['0']:
                     t = src[1]
                     callee = t.get('callee') or ''
